@@ -1,7 +1,7 @@
 //! G-loop: programs with known-unbounded or long-running parts, nested through host re-entry and
 //! the stdlib's native callbacks (the places where the instruction budget has to be shared).
 use crate::kernel::Rng;
-use cao_lang::compiler::{Card, CardBody, Function, Module, Repeat};
+use cao_lang::compiler::{Card, CardBody, ForEach, Function, Module, Repeat};
 
 fn c(b: CardBody) -> Card {
     b.into()
@@ -34,7 +34,9 @@ pub struct LoopShape {
     /// how the nested work is reached at each level: 0 = host stub call0, 1 = std.sorted_by_key,
     /// 2 = std.min_by_key, 3 = plain script call, 4 = std.map (card based), 5 = the native
     /// function value call0 through a dynamic call, 6 = host stub try0 (swallows the callee's
-    /// failure and returns nil)
+    /// failure and returns nil), 7 = a for-each over the table whose body returns at the first
+    /// row, 8 = std.any with a callback that is truthy at the first row (7 and 8: work that does
+    /// not grow with the number of rows)
     pub via: Vec<u8>,
     /// the innermost level never terminates
     pub infinite: bool,
@@ -47,10 +49,11 @@ pub struct LoopShape {
 pub fn gen_shape(rng: &mut Rng) -> LoopShape {
     let depth = 1 + rng.usize(3);
     LoopShape {
-        via: (0..depth).map(|_| rng.below(7) as u8).collect(),
+        via: (0..depth).map(|_| rng.below(9) as u8).collect(),
         infinite: rng.chance(1, 3),
         work: (0..=depth).map(|_| rng.range(0, 12)).collect(),
-        entries: 1 + rng.usize(4),
+        // sometimes far more rows than the rest of the program has instructions
+        entries: if rng.chance(1, 4) { 40 + rng.usize(260) } else { 1 + rng.usize(4) },
     }
 }
 
@@ -89,6 +92,11 @@ pub fn gen_loop_program(shape: &LoopShape) -> Module {
                 vec![c(CardBody::Function(format!("{name}_0")))],
             ),
             6 => Card::call_native("try0", vec![c(CardBody::Function(format!("{name}_0")))]),
+            7 => Card::call_function(format!("{name}_fe"), vec![]),
+            8 => Card::call_function(
+                "std.any",
+                vec![c(CardBody::Function(format!("{name}_3t"))), Card::read_var("tbl")],
+            ),
             _ => Card::call_function(
                 "std.map",
                 vec![c(CardBody::Function(format!("{name}_3"))), Card::read_var("tbl")],
@@ -116,6 +124,25 @@ pub fn gen_loop_program(shape: &LoopShape) -> Module {
             f.cards = body.clone();
             m.functions.push((format!("level{level}_{suffix}"), f));
         }
+        // the body reached from inside a loop over the table that is left at the first row
+        let fe = Function::default().with_cards(vec![
+            c(CardBody::ForEach(Box::new(ForEach {
+                i: None,
+                k: None,
+                v: Some("row".into()),
+                iterable: Box::new(Card::read_var("tbl")),
+                body: Box::new(Card::return_card(Card::call_function(format!("level{level}_0"), vec![]))),
+            }))),
+            Card::return_card(c(CardBody::ScalarNil)),
+        ]);
+        m.functions.push((format!("level{level}_fe"), fe));
+        // ... and as a callback of std.any that is truthy whatever the level counted
+        let mut t3 = Function::default().with_arg("k").with_arg("v").with_arg("i");
+        t3.cards = vec![
+            Card::set_global_var(format!("any{level}"), Card::call_function(format!("level{level}_0"), vec![])),
+            Card::return_card(Card::scalar_int(1)),
+        ];
+        m.functions.push((format!("level{level}_3t"), t3));
     }
     m
 }
